@@ -11,6 +11,9 @@ import tlegen
 
 ID = "C02"
 LEAN_TARGETS = ["PV.Props.C02"]
+# T-D: functions translated from the source by harness/pytrans.py, proved equal to the model (DESIGN section 0)
+EQUIV = {"PV.Equiv.TranslatedParse": ["read_tle_decimal_eq", "parse_tle_eq", "init_eq_model"],
+         "PV.Equiv.TranslatedInit": ["init_order", "init_lines_eq", "init_lines_eq_tleOfLines"]}
 RULE = ("correspondence: Lean model (interpreter of the column table regenerated from the AST of Tle._parse_tle) vs "
         "tlefile.Tle(line1=, line2=) on (a) encoder-generated TLEs over the full printable range of every column "
         "(tlegen.full_range_fields: 3-digit angles, 5-digit revolution numbers, every sign/exponent combination, blank- or "
